@@ -196,7 +196,7 @@ class NUTS(Sampler):
 
                 # Metropolis step
                 alpha2 = min(1, (n_prime/n)) #min(0, np.log(n_p) - np.log(n))
-                if (s_prime == 1) and (np.random.rand() <= alpha2):
+                if (s_prime == 1) and (np.random.rand() <= alpha2) and np.isfinite(joint_prime): # (a non-finite proposal is never selected)
                     theta[:, k] = theta_prime
                     joint_eval[k] = joint_prime
                     grad = np.copy(grad_prime)
